@@ -75,6 +75,7 @@ func mLock(x *Exec, cfg *Config, f *Frame, args []Val, pos token.Pos) (Val, []*C
 	cfg.st.heap["$held"] = Store(x.heldArr(cfg.st), m, True)
 	if tv, ok := args[0].(TV); ok && x.lockDeclFor(tv.Org) == nil && x.c != nil && x.c.Options["old"] == "section" {
 		cfg.old = cfg.st.clone()
+		x.resnapLoopGhost(cfg)
 	}
 	return TupV{}, nil
 }
@@ -279,6 +280,7 @@ func mOnceDo(x *Exec, cfg *Config, f *Frame, args []Val, pos token.Pos) (Val, []
 	st.heap["$oncedone"] = Store(x.onceDoneArr(st), once, d1)
 	if x.c != nil && x.c.Options["old"] == "section" {
 		cfg.old = cfg.st.clone()
+		x.resnapLoopGhost(cfg)
 	}
 	// path B: already done: Do returns without running f
 	skip := cfg.clone()
@@ -410,6 +412,7 @@ func (x *Exec) atomicHavoc(cfg *Config) {
 	x.interfere(cfg)
 	if x.c != nil && x.c.Options["old"] == "section" {
 		cfg.old = cfg.st.clone()
+		x.resnapLoopGhost(cfg)
 	}
 }
 
